@@ -429,9 +429,12 @@ Definition vol_fields (h : volhdr) (vb : bytes) : Prop :=
 Fixpoint node_ok (n : node) : Prop :=
   match n with
   | NPad _ _ => True
-  | NSec h sb kids => sec_fields h sb /\ sec_kids_ok h sb kids /\ all_ok node_ok kids
-  | NFile h fb kids => file_fields h fb /\ secs_tile fb (f_dataoff h) kids /\ all_ok node_ok kids
-  | NVol h vb kids => vol_fields h vb /\ files_tile vb (v_dataoff h) kids /\ all_ok node_ok kids
+  | NSec h sb kids =>
+    bytes_ok sb = true /\ sec_fields h sb /\ sec_kids_ok h sb kids /\ all_ok node_ok kids
+  | NFile h fb kids =>
+    bytes_ok fb = true /\ file_fields h fb /\ secs_tile fb (f_dataoff h) kids /\ all_ok node_ok kids
+  | NVol h vb kids =>
+    bytes_ok vb = true /\ vol_fields h vb /\ files_tile vb (v_dataoff h) kids /\ all_ok node_ok kids
   end.
 
 (* what each parser promises about its result, relative to the buffer it was given *)
@@ -604,7 +607,7 @@ Proof.
     - intros G. apply file_hdr_from_sub; auto.
     - lia.
     - intros G. split; [lia|]. intros G32. unfold fb. rewrite rd_sub0 by lia. lia. }
-  split; [exact FF|].
+  split; [exact OKs|]. split; [exact FF|].
   destruct (supported_file (f_type h)).
   - apply (sections_loop_tile rs rs_post) in R; auto; [lia|].
     destruct HL as [[-> _]|[-> _]]; reflexivity.
@@ -632,6 +635,7 @@ Proof.
   cbn [node_ok].
   set (vb := sub 0 (v_length h) data) in *.
   assert (ZS : zlen vb = v_length h) by (unfold vb; rewrite zlen_sub0; lia).
+  split; [unfold vb; apply bytes_ok_sub; auto|].
   split; [split; [exact ZS|split; [lia|apply vol_hdr_from_sub; auto; lia]]|].
   destruct (supported_fv (v_guid h)).
   - apply (files_loop_tile rf rf_post) in R; auto; [|lia].
@@ -1215,7 +1219,7 @@ Lemma section_fields (Hdec : dec_ok dec) d pol buf i h sb kids p : bytes_ok buf 
   all_ok (node_ok dec u2s) kids.
 Proof.
   intros OK H. apply (parse_post dec u2s nvar Hdec d) in H as (h' & k' & E & L & NO); auto.
-  injection E as -> -> ->. cbn [node_ok] in NO. split; [lia|exact NO].
+  injection E as -> -> ->. cbn [node_ok] in NO. destruct NO as (_ & NO). split; [lia|exact NO].
 Qed.
 
 Lemma file_buf d pol buf n p : pfile d pol buf = Ok (Some n, p) ->
@@ -1235,7 +1239,7 @@ Lemma file_fields_inside (Hdec : dec_ok dec) d pol buf h fb kids p : bytes_ok bu
   all_ok (node_ok dec u2s) kids.
 Proof.
   intros OK H. apply (parse_post dec u2s nvar Hdec d) in H as (h' & k' & E & L & NO); auto.
-  injection E as -> -> ->. cbn [node_ok] in NO. split; [lia|exact NO].
+  injection E as -> -> ->. cbn [node_ok] in NO. destruct NO as (_ & NO). split; [lia|exact NO].
 Qed.
 
 Lemma fv_buf d pol data o r n p : pfv d pol data o r = Ok (n, p) ->
@@ -1248,7 +1252,7 @@ Lemma fv_fields_inside (Hdec : dec_ok dec) d pol data o r h vb kids p : bytes_ok
   vol_fields h vb /\ files_tile vb (v_dataoff h) kids /\ all_ok (node_ok dec u2s) kids.
 Proof.
   intros OK H. apply (parse_post dec u2s nvar Hdec d) in H as (h' & k' & E & L & NO); [|exact OK].
-  injection E as -> -> ->. cbn [node_ok] in NO. exact NO.
+  injection E as -> -> ->. cbn [node_ok] in NO. destruct NO as (_ & NO). exact NO.
 Qed.
 
 Lemma region_partition d buf elems p :
